@@ -136,12 +136,18 @@ def run_one(args):
             vl = [l for l in out.split('\n') if l.startswith('VIOLATION')]
             res['checks'].append(dict(pid=pid, rc=rc, wall=round(time.time() - t), n=len(vl),
                                       no_input=all('no-failing-input-found' in l for l in vl) if vl else None))
-            if rc != 0:
-                res['verdict'] = f'detected:{pid}' + (':no-failing-input' if vl and all('no-failing-input-found' in l for l in vl) else '')
-                if not vl:
-                    res['verdict'] = f'check-error:{pid}'
-                    res['tail'] = out[-600:]
+            if rc != 0 and not vl:
+                res['verdict'] = f'check-error:{pid}'
+                res['tail'] = out[-600:]
                 return res
+            if rc != 0 and not all('no-failing-input-found' in l for l in vl):
+                res['verdict'] = f'detected:{pid}'
+                return res
+            if rc != 0 and 'first_noinput' not in res:
+                res['first_noinput'] = pid       # reported, but only as a broken obligation: keep looking for a failing input
+        if 'first_noinput' in res:
+            res['verdict'] = f"detected:{res['first_noinput']}:no-failing-input"
+            return res
         res['verdict'] = 'SURVIVED'
         return res
     except Exception as e:
